@@ -6,7 +6,7 @@
    (premises of C16_optimal_solution_is_closest_flow). *)
 From Coq Require Import List NArith ZArith QArith Bool Arith Lia.
 Import ListNotations.
-From FP Require Import Lin Blocks BlocksProofs PathEnc MiscEnc MiscEncProofs MefBound MefChecked.
+From FP Require Import Lin Blocks BlocksProofs PathEnc MiscEnc MiscEncProofs MefBound MefChecked MefIntegral.
 Local Open Scope Q_scope.
 
 (* rows + columns <=> 0 <= x, err <= ub (integral for int weights); conservation at every node with in- and
@@ -82,6 +82,40 @@ Theorem C16_optimal_solution_is_closest_flow : C16_full_statement.
 Proof. exact mef_optimal_is_closest_full. Qed.
 Print Assumptions C16_optimal_solution_is_closest_flow.
 
+(* THE INTEGRAL OPTIMUM IS THE REAL OPTIMUM.  On integral weights every non-negative conserving RATIONAL flow is matched or beaten
+   by an INTEGRAL one (any scalings, any lambda): while some edge is non-integral, the non-integral edges contain an undirected
+   cycle after contracting the nodes without conservation (cut argument); pushing +-eps around it keeps conservation and
+   non-negativity, the cost is affine between consecutive integers on every edge (weights integral), so one direction does not
+   increase it; push until an edge becomes integral; the number of non-integral edges drops. *)
+Theorem C16_integral_flow_no_worse : forall (I : mef_inst), NoDup (mef_edges I) ->
+  (forall e, In e (mef_edges I) -> is_int (fval I e)) ->
+  forall y, is_flow_real I y ->
+  exists y', is_flow_real I y' /\ (forall e, In e (mef_edges I) -> is_int (y' e)) /\ flow_cost I y' <= flow_cost I y.
+Proof. exact mef_integral_no_worse. Qed.
+Print Assumptions C16_integral_flow_no_worse.
+
+(* hence weight_type = int loses nothing against float on integral data: an optimal solution of the rows of the INTEGER model
+   (solver specification; side conditions = the executable check) is a closest flow among ALL rational flows *)
+Theorem C16_integral_optimum_is_real_optimum : forall (I : mef_inst) (a : var -> Q),
+  mef_int I = true -> mef_domain_b I = true ->
+  sat a (encode_mef I) -> (forall b, sat b (encode_mef I) -> obj_le (encode_mef I) a b) ->
+  forall y, is_flow_real I y -> flow_cost I (xof a) <= flow_cost I y.
+Proof. exact mef_integral_optimum_is_real_optimum. Qed.
+Print Assumptions C16_integral_optimum_is_real_optimum.
+
+(* the key step on its own: one push around a cycle of non-integral edges (generic end-point maps, generic edge-wise affine cost) *)
+Theorem C16_fractional_cycle_push_does_not_increase_cost : forall (src dst : PathEnc.edge -> node) (E : list PathEnc.edge), NoDup E ->
+  forall (c : PathEnc.edge -> Q -> Q) (slope : PathEnc.edge -> Z -> Q),
+  (forall e v w, v == w -> c e v == c e w) ->
+  (forall e z v, In e E -> inject_Z z <= v <= inject_Z z + 1 -> c e v == c e (inject_Z z) + slope e z * (v - inject_Z z)) ->
+  forall (y : PathEnc.edge -> Q) (C : list (PathEnc.edge * bool)) (a : node),
+  (forall e, In e E -> 0 <= y e) -> balanced src dst E y -> ochain src dst E a C a -> NoDup (map fst C) -> C <> [] ->
+  (forall p, In p C -> In (fst p) E /\ frac y (fst p) = true) ->
+  exists y1, balanced src dst E y1 /\ (forall e, In e E -> 0 <= y1 e) /\ costq E c y1 <= costq E c y /\
+             (length (filter (frac y1) E) < length (filter (frac y) E))%nat.
+Proof. exact push_step. Qed.
+Print Assumptions C16_fractional_cycle_push_does_not_increase_cost.
+
 (* CHECKED form: the side conditions are one executable boolean (extracted; run on every instance by the engine) *)
 Theorem C16_optimal_solution_is_closest_flow_checked : forall (I : mef_inst) (a : var -> Q), mef_domain_b I = true ->
   sat a (encode_mef I) -> (forall b, sat b (encode_mef I) -> obj_le (encode_mef I) a b) ->
@@ -122,6 +156,11 @@ Theorem C16_equivalent_lps_have_the_same_optima : forall (m1 m2 : milp), milp_eq
   forall a, (sat a m1 /\ forall b, sat b m1 -> obj_le m1 a b) <-> (sat a m2 /\ forall b, sat b m2 -> obj_le m2 a b).
 Proof. exact milp_equiv_optimal. Qed.
 Print Assumptions C16_equivalent_lps_have_the_same_optima.
+
+(* ---- non-vacuity of the integrality theorem: the optimum set of this instance contains the fractional flow 1/2 and the integral flow 0 *)
+Example C16_nonvacuous_fractional_optimum : mef_domain_b ex_frac = true /\ is_flow_real ex_frac (fun _ => 1 # 2) /\ is_flow_real ex_frac (fun _ => 0) /\
+  ~ is_int (1 # 2) /\ flow_cost ex_frac (fun _ => 1 # 2) == 2 /\ flow_cost ex_frac (fun _ => 0) == 2.
+Proof. exact ex_frac_flows. Qed.
 
 (* ---- non-vacuity of the no-loss theorem: a flow far above the bound (7 on both edges, ub = 2) is a flow in its sense *)
 Example C16_nonvacuous_unbounded_flow : is_flow_nb ex_nb (fun _ => 7) /\ mef_ub ex_nb == 2.
